@@ -47,7 +47,7 @@ From WH.Model Require Import VcfRecord.
 Import ListNotations.
 Open Scope Z_scope.
 Record kase := mkCase { k_cf : cfg; k_plan : list (token * list target); k_in : list vrec; k_out : option (list vrec);
-  k_distrust : bool; k_hin : header; k_hout : header; k_use : body_use; k_cmd : option token;
+  k_distrust : bool; k_cli : bool; k_hin : header; k_hout : header; k_use : body_use; k_cmd : option token;
   k_predef_f : list token; k_predef_i : list token }.
 Definition the_rules := RULES_rules.
 Definition the_guard := RULES_guard.
@@ -68,6 +68,7 @@ Definition l1_conserves_mod_end (k : kase) := with_out k (conserves fixed_mod_en
 Definition l1_frames (k : kase) := with_out k (frames (annotate (k_plan k) (k_in k))).
 Definition l1_alleles (k : kase) := with_out k (fun o =>
   if k_distrust k then true
+  else if k_cli k then alleles_kept (k_in k) o       (* whatshap phase without --distrust-genotypes: unconditional *)
   else if superreads_agree (k_cf k) (annotate (k_plan k) (k_in k)) then alleles_kept (k_in k) o else true).
 Definition l1_het (k : kase) := with_out k (only_het_supported (k_cf k) (annotate (k_plan k) (k_in k))).
 Definition l1_header (k : kase) := with_out k (fun _ => header_superset (k_hin k) (k_hout k)).
@@ -177,7 +178,7 @@ def plan_term(plan, samples, it):
     return "[" + ";\n ".join(items) + "]"
 
 
-def case_term(cfgd, plan, fin, fout, distrust, cmdline):
+def case_term(cfgd, plan, fin, fout, distrust, cmdline, cli=False):
     it = vcfabs.Interner()
     pf = "[" + "; ".join(vcfabs._z(it(x)) for x in vcfgen.PREDEF_FORMATS) + "]"
     pi = "[" + "; ".join(vcfabs._z(it(x)) for x in vcfgen.PREDEF_INFOS) + "]"
@@ -186,7 +187,8 @@ def case_term(cfgd, plan, fin, fout, distrust, cmdline):
     # VcfAugmenter: command_line = '"' + command_line.replace('"', "") + '"'
     cmd = "None" if cmdline is None else f"(Some {vcfabs._z(it('v:' + chr(34) + cmdline.replace(chr(34), '') + chr(34)))})"
     return ("(mkCase " + vcfabs.cfg_term(cfgd["tag"], cfgd["only_snvs"], cfgd["mav"], vcfabs.end_declared(fin)) + "\n " + plan_term(plan, fin.samples, it)
-            + "\n " + vcfabs.recs_term(fin.records, it) + "\n " + out + " " + ("true" if distrust else "false") + "\n "
+            + "\n " + vcfabs.recs_term(fin.records, it) + "\n " + out + " " + ("true" if distrust else "false") + " "
+            + ("true" if cli else "false") + "\n "
             + vcfabs.header_term(fin.header, it) + "\n " + hout + "\n " + vcfabs.use_term(vcfabs.body_use(fin), it) + " "
             + cmd + " " + pf + " " + pi + ")")
 
@@ -542,7 +544,7 @@ def make_cli_case(ctx, wd, idx, sc, reads, vt, opts):
     for k, v in fout.header.generic:
         if k == "commandline":
             cmdline = v.strip(chr(34))
-    term = case_term(cfgd, plan, fin, fout, opts["distrust"], cmdline)
+    term = case_term(cfgd, plan, fin, fout, opts["distrust"], cmdline, cli=True)
     return {"term": term, "replay": replay, "desc": desc, "fin": fin, "fout": fout, "plan": plan, "cfgd": cfgd}
 
 
@@ -579,12 +581,20 @@ def run_cli(ctx, n):
     return evaluate(ctx, cases, "c"), cases
 
 
+def quiet_htslib():
+    """htslib prints a warning for every undeclared header item of the generated files"""
+    import pysam
+    pysam.set_verbosity(0)
+
+
 def run(ctx):
+    quiet_htslib()
     run_direct(ctx, ctx.n(400, 5000))
     run_cli(ctx, ctx.n(80, 900))
 
 
 def replay(ctx, data):
+    quiet_htslib()
     wd = util.workdir(ctx)
     if data.get("kind") == "direct":
         vt = vcfabs.VcfText.from_json(data["vcf"])
